@@ -46,7 +46,9 @@ ArgsOf(t) == {a \in [path : Paths(t) \cup {<<>>}, abs : BOOLEAN, dots : BOOLEAN]
 ArgLists(t) == UNION {[1..n -> ArgsOf(t)] : n \in 1..MaxArgs}
 \* the statement does not say what happens below a directory that is named
 \* explicitly but lies inside an excluded one: such arguments are not generated
-Constrained(a) == \A i \in 1..(Len(a.path) - 1) : ~Excluded(a.path[i])
+\* ("a file named explicitly is processed wherever it lives": a *file* argument is constrained
+\*  whatever directories lead to it)
+Constrained(a) == KindOf(a.path) # "dir" \/ \A i \in 1..(Len(a.path) - 1) : ~Excluded(a.path[i])
 
 \* ------------------------------------------------------------- P-layer --
 IsPrefix2(p, q) == Len(p) <= Len(q) /\ SubSeq(q, 1, Len(p)) = p
